@@ -296,6 +296,11 @@ func (g *vqGen) block(params *chaincfg.Params, prev chainhash.Hash, height int, 
 	})
 	cb.AddTxOut(&wire.TxOut{Value: 50 * 1e8, PkScript: g.p2wpkh()})
 	txs := []*wire.MsgTx{cb, g.segwitTx(2), g.legacyTx(), g.segwitTx(1), g.legacyTx()}
+	if height == 2 || height == 3 {
+		// filters with more than 252 elements: the element count is then
+		// stored as a multi-byte varint (filterdb, wire encoding)
+		txs[1] = g.segwitTx(260 + 50*(height-2))
+	}
 	cb.AddTxOut(&wire.TxOut{Value: 0, PkScript: vqCommitScript(vqWitnessRoot(txs), cb.TxIn[0].Witness[0])})
 	var prevScr [][]byte
 	for _, tx := range txs[1:] {
